@@ -12,6 +12,7 @@ import (
 type Iter struct {
 	err  error
 	msgC chan xml.TokenReader
+	done chan struct{}
 	cur  xml.TokenReader
 	h    *Handler
 	id   string
@@ -20,9 +21,16 @@ type Iter struct {
 
 // Next advances the iterator
 func (i *Iter) Next() bool {
-	var ok bool
-	i.cur, ok = <-i.msgC
-	return ok
+	if i.msgC == nil {
+		// An iterator that only reports an error has nothing to wait for.
+		return false
+	}
+	select {
+	case i.cur = <-i.msgC:
+		return true
+	case <-i.done:
+		return false
+	}
 }
 
 // Current returns the current message stream read from the iterator.
